@@ -193,7 +193,7 @@ func recordRepoSuite() ([]ctxEvent, error) {
 	defer os.RemoveAll(tmp)
 	tf := filepath.Join(tmp, "trace.ndjson")
 	cmd := exec.Command("go", "test", "-tags", "verif", "-vet=off", "-count=1", "-skip", "Concurrency", ".")
-	cmd.Dir = "/repo"
+	cmd.Dir = envOr("VERIF_REPO", "/repo")
 	cmd.Env = append(os.Environ(), "VERIF_TRACE_FILE="+tf, "GOFLAGS=-mod=mod", "GOPROXY=off", "GOSUMDB=off", "GOTOOLCHAIN=local")
 	outb, err := cmd.CombinedOutput()
 	if err != nil {
